@@ -1,4 +1,202 @@
-import PoetryVerif.Model.MarkerOps
+/-
+C02 — Requirements written into built metadata mean what pyproject declared.
+Property theorems only (model: Model/Dep02.lean over Model/Dep.lean; helper lemmas: Proofs/Dep02.lean).
+
+The chain  table entry → `Factory.create_dependency` → `Dependency.marker` → `Metadata.from_package` → `to_pep_508`
+is proved by composition: the marker of the dependency object holds in an environment exactly when the declared
+`markers`, `python` and `platform` conditions do (`dependency_marker_faithful`), from C11 (`createNested_exact`,
+`parseMarker_sem`) and C07 (`mIntersect_sound`), relative to the same two leaf-level hypotheses those theorems have
+(`LeafSpec`, `CompactAgree`) and to the reference value of the `sys_platform` text.  The printed line is the base
+requirement followed by ` ; ` and the marker's text (`requires_dist_line_shape`); that this text has the marker's truth
+for the reference is C13's print/parse theorem and enters `requiresDist_faithful_partial` as the named hypothesis
+`PrintFaithful`; the version part is C15's.  Selection (`no_nonoptional_dropped`, `empty_marker_never_unconditional`),
+Provides-Extra and the structure of Requires-Python are proved outright.
+-/
+import PoetryVerif.Proofs.Dep02
+
+set_option linter.unusedSimpArgs false
+set_option linter.unusedVariables false
+
 namespace Poetry.C02
-theorem placeholder_to_be_replaced : True := trivial
+open Poetry Poetry.Marker Poetry.Dep Poetry.Dep02 Poetry.C11
+
+variable {E : Env} {ev : Leaf → Bool} {G : Leaf → Prop}
+
+/-! ## the dependency object means what the table declared -/
+
+/-- **the marker of the dependency built from a table entry holds exactly when the declared conditions hold**:
+`markers` (reference value `bM`), `python` (the range admits the interpreter `X.Y.Z`: `bPy`) and `platform`
+(reference value of the `sys_platform` clause: `bPl`) -/
+theorem dependency_marker_faithful (S : LeafSpec ev G) (hC : CompactAgree E ev G) (D : Decl) (X Y Z : Nat)
+    (hE : EnvPy E X Y Z) (bM bPy bPl : Bool) (d : Dep) (hM : declRef E D.markers = some bM)
+    (hPy : PyDecl D.python X Y Z bPy) (hPl : PlatformDecl E D.platform bPl) (h : packageDependency D = .ok d) :
+    M.Good G d.marker ∧ M.sem ev d.marker = (bM && bPy && bPl) := by
+  unfold packageDependency at h
+  cases hc : createDependency D with
+  | error e => simp [hc, bind, Except.bind] at h
+  | ok d0 =>
+    simp only [hc, bind, Except.bind, pure, Except.pure] at h
+    cases h
+    obtain ⟨m, hm, hd⟩ := createDependency_marker D d0 hc
+    rw [wireExtras_marker, hd]
+    exact declMarker_sem S hC D X Y Z hE bM bPy bPl m hM hPy hPl hm
+
+/-- declarations inside the hypotheses' domain: a python range of C11's domain on interpreter 3.9.1; absent conditions -/
+example : PyDecl (some ">=3.8,<3.11") 3 9 1 true := ⟨_, rfl, by decide +kernel, by decide +kernel⟩
+example (E : Env) : declRef E none = some true ∧ PlatformDecl E none true ∧ PyDecl none 3 9 1 true := ⟨rfl, rfl, rfl⟩
+
+/-! ## what is written -/
+
+/-- **shape of a Requires-Dist line** of a dependency that is not a member of an extra: the base requirement, and —
+exactly when the marker is not `AnyMarker` — ` ; ` followed by the marker's text -/
+theorem requires_dist_line_shape (d : Dep) (base : String) (hb : d.basePep508Name = .ok base) (hi : d.inExtras = [])
+    (he : d.marker.isEmpty = false) :
+    (d.marker.isAny = true → d.pythonVersions = "*" → d.toPep508 = .ok base) ∧
+    (d.marker.isAny = false → ∀ t ex, d.marker.toStr = .ok t → convertMarkersFor "extra" d.marker = .ok ex →
+      d.toPep508 = .ok (base ++ " ; " ++ t)) := by
+  constructor
+  · intro ha hp
+    simp [Dep.toPep508, hb, ha, hp, hi, joinWith, bind, Except.bind, pure, Except.pure]
+  · intro ha t ex ht hx
+    simp [Dep.toPep508, hb, ha, he, ht, hx, hi, joinWith, bind, Except.bind, pure, Except.pure]
+
+/-- C13's print/parse theorem for one marker, as a named hypothesis: the text `str(marker)` has, for the reference
+evaluator, the truth of the marker -/
+def PrintFaithful (E : Env) (ev : Leaf → Bool) (m : M) : Prop :=
+  ∀ t, m.toStr = .ok t → refEval E t = some (M.sem ev m)
+
+/-- **C02, full statement** for a table declaration: the Requires-Dist line exists unless the declaration can never be
+selected, is accepted by the requirement recogniser, and its marker part has, for the PEP 508 reference, the value of the
+declared conditions (and of membership in the active extras for optional dependencies); its specifier part admits the
+versions the declared constraint admits -/
+def requiresDist_faithful_full_statement : Prop :=
+  ∀ (D : Decl) (E : Env) (X Y Z : Nat) (bM bPy bPl : Bool) (c : VC), EnvPy E X Y Z →
+    declRef E D.markers = some bM → PyDecl D.python X Y Z bPy → PlatformDecl E D.platform bPl →
+    VParser.parseConstraint D.version = .ok c →
+    ∃ line, requiresDistLine D = .ok line ∧
+      match line with
+      | none => (D.optional = true ∧ D.inExtras = []) ∨ (bM && bPy && bPl) = false
+      | some t => ∃ raw, Req.parseRaw t.toList = some raw ∧
+          (∃ c', VParser.parseConstraint (Req.constraintTextOf raw.specs) = .ok c' ∧ ∀ v, c'.allows v = c.allows v) ∧
+          (match raw.marker with
+           | none => (bM && bPy && bPl) = true ∧ D.optional = false
+           | some syn => Spec.Pep508.evalSyn E syn =
+               some (bM && bPy && bPl && (!D.optional || (D.inExtras.map canonName).any (fun x => (E.extras.getD []).contains x))))
+
+/-- **proved part** (non-optional declarations): the line is `base ; marker-text`, and the marker text has for the
+reference exactly the value of the declared conditions — given C13's print/parse fact for this marker
+(`PrintFaithful`) and the two leaf-level hypotheses of C07/C11 -/
+theorem requiresDist_faithful_partial (S : LeafSpec ev G) (hC : CompactAgree E ev G) (D : Decl) (X Y Z : Nat)
+    (hE : EnvPy E X Y Z) (bM bPy bPl : Bool) (d : Dep) (hM : declRef E D.markers = some bM)
+    (hPy : PyDecl D.python X Y Z bPy) (hPl : PlatformDecl E D.platform bPl) (h : packageDependency D = .ok d)
+    (hP : PrintFaithful E ev d.marker) (base : String) (hb : d.basePep508Name = .ok base) (hi : d.inExtras = [])
+    (hne : d.marker.isEmpty = false) (hany : d.marker.isAny = false) (t : String) (ex : Option (List (List (String × String))))
+    (ht : d.marker.toStr = .ok t) (hx : convertMarkersFor "extra" d.marker = .ok ex) :
+    d.toPep508 = .ok (base ++ " ; " ++ t) ∧ refEval E t = some (bM && bPy && bPl) := by
+  refine ⟨(requires_dist_line_shape d base hb hi hne).2 hany t ex ht hx, ?_⟩
+  rw [hP t ht, (dependency_marker_faithful S hC D X Y Z hE bM bPy bPl d hM hPy hPl h).2]
+
+/-! ## selection -/
+
+/-- **no declared non-optional dependency is dropped** unless it can never be selected: a non-optional declaration whose
+marker has no `extra` clause (so that the `marker` setter leaves it mandatory) and is not the empty marker is selected by
+`Metadata.from_package` -/
+theorem no_nonoptional_dropped (D : Decl) (d : Dep) (h : packageDependency D = .ok d) (ho : d.optional = false)
+    (hne : d.marker.isEmpty = false) : selected d = true := by
+  simp [selected, ho, hne]
+
+/-- the `marker` setter keeps a mandatory dependency mandatory when the marker has no `extra` clause -/
+theorem setMarker_keeps_mandatory (d d' : Dep) (m : M) (h : d.setMarker m = .ok d')
+    (hx : convertMarkersFor "extra" m = .ok none) : d'.optional = d.optional := by
+  unfold Dep.setMarker at h
+  simp only [bind, Except.bind, pure, Except.pure, hx] at h
+  cases h2 : convertMarkersFor "python_version" m with
+  | error e => simp [h2] at h
+  | ok py =>
+    simp only [h2] at h
+    cases py <;> simp only [] at h <;> (repeat' split at h) <;> first | (cases h; rfl) | (cases h)
+
+/-- **a dependency whose conditions contradict each other is never written as unconditional** (regression of
+poetry-core 3213fc9): an empty marker means no Requires-Dist line at all -/
+theorem empty_marker_never_unconditional (d : Dep) (h : d.marker.isEmpty = true) : selected d = false := by
+  simp [selected, h]
+
+/-- … and every line that IS written for a conditional dependency carries its condition -/
+theorem conditional_line_has_marker (d : Dep) (base t : String) (ex : Option (List (List (String × String))))
+    (hs : selected d = true) (hany : d.marker.isAny = false) (hb : d.basePep508Name = .ok base) (hi : d.inExtras = [])
+    (ht : d.marker.toStr = .ok t) (hx : convertMarkersFor "extra" d.marker = .ok ex) :
+    d.toPep508 = .ok (base ++ " ; " ++ t) := by
+  have hne : d.marker.isEmpty = false := by
+    simp only [selected, Bool.and_eq_true, Bool.not_eq_true'] at hs
+    exact hs.2
+  exact (requires_dist_line_shape d base hb hi hne).2 hany t ex ht hx
+
+/-- an optional dependency that no extra lists is not written; one that an extra lists carries the `extra` clause
+(the witness of 3213fc9 — `python = ">=3.8"` with `markers = "python_version < '3.8'"` gives no line — is in the
+check's corpus: the marker algebra is too large for kernel evaluation) -/
+example : (requiresDistLine { name := "foo", optional := true }).toOption = some none := by decide +kernel
+example : (requiresDistLine { name := "foo", optional := true, inExtras := ["Test_X"] }).toOption =
+    some (some "foo ; extra == \"test-x\"") := by decide +kernel
+
+/-! ## Provides-Extra -/
+
+/-- **Provides-Extra lists exactly the declared extras, normalised, once each** -/
+theorem provides_extra_normalised (keys : List String) :
+    (∀ x ∈ providesExtra keys, ∃ k ∈ keys, x = canonName k ∧ canonName x = x) ∧
+    (∀ k ∈ keys, canonName k ∈ providesExtra keys) ∧ (providesExtra keys).Nodup := by
+  refine ⟨?_, ?_, dedupKeep_nodup _⟩
+  · intro x hx
+    have := (mem_dedupKeep _ x).mp hx
+    obtain ⟨k, hk, rfl⟩ := List.mem_map.mp this
+    exact ⟨k, hk, rfl, canonName_idem k⟩
+  · intro k hk
+    exact (mem_dedupKeep _ _).mpr (List.mem_map.mpr ⟨k, hk, rfl⟩)
+
+example : providesExtra ["Test_X", "docs", "test.x"] = ["test-x", "docs"] := by decide
+
+/-! ## Requires-Python -/
+
+/-- the header for a range that is not a disjunction is the constraint's own text; for a full-precision single version
+`==V` -/
+theorem requires_python_range (r : VRange) : formatPythonConstraint (.single (.rng r)) = (VC.single (.rng r)).toStr := rfl
+
+theorem requires_python_version3 (v : Version) (h : v.precision ≥ 3) :
+    formatPythonConstraint (.single (.ver v)) = .ok ("==" ++ v.text) := by
+  simp [formatPythonConstraint, h, bind, Except.bind, pure, Except.pure]
+
+/-- **structure of Requires-Python for a disjunction**: `>=X.Y` for the first `PYTHON_VERSION` entry the declared
+constraint intersects, followed by `!=V` exactly for the entries it does not intersect -/
+theorem requires_python_format_partial (rs : List RC) (t : String) (h : formatPythonConstraint (.union rs) = .ok t) :
+    ∃ low f a, formatUnion (.union rs) Gen.pythonVersionList = .ok (f, low :: a) ∧
+      t = joinWith ", " ((">=" ++ firstTwo low) :: f) ∧
+      (∀ x ∈ f, ∃ v ∈ Gen.pythonVersionList, x = "!=" ++ v ∧ ∃ vc, VParser.parseConstraint v = .ok vc ∧
+        (VC.union rs).allowsAny vc = .ok false) ∧
+      (∀ v ∈ low :: a, v ∈ Gen.pythonVersionList ∧ ∃ vc, VParser.parseConstraint v = .ok vc ∧
+        (VC.union rs).allowsAny vc = .ok true) := by
+  simp only [formatPythonConstraint, bind, Except.bind, pure, Except.pure] at h
+  cases hf : formatUnion (.union rs) Gen.pythonVersionList with
+  | error e => simp [hf] at h
+  | ok p =>
+    obtain ⟨f, a⟩ := p
+    simp only [hf] at h
+    cases a with
+    | nil => simp at h
+    | cons low a =>
+      simp only [Except.ok.injEq] at h
+      have := formatUnion_items (.union rs) Gen.pythonVersionList f (low :: a) hf
+      exact ⟨low, f, a, rfl, h.symm, this.1, this.2⟩
+
+/-- the headers of three declared interpreter ranges -/
+example : (requiresPython "~2.7 || ^3.6").toOption =
+    some (some ">=2.7, !=3.0.*, !=3.1.*, !=3.2.*, !=3.3.*, !=3.4.*, !=3.5.*") := by decide +kernel
+example : (requiresPython ">=3.8,<4.0").toOption = some (some ">=3.8,<4.0") ∧ (requiresPython "*").toOption = some none :=
+  ⟨by decide +kernel, by decide +kernel⟩
+
+/-- what remains: the header denotes the declared set of interpreters (on the releases of `PYTHON_VERSION`) -/
+def requires_python_faithful_full_statement : Prop :=
+  ∀ (pv : String) (c : VC) (t : String), VParser.parseConstraint pv = .ok c → requiresPython pv = .ok (some t) →
+    ∃ c', VParser.parseConstraint t = .ok c' ∧
+      ∀ X Y Z, (toString X ++ "." ++ toString Y ++ ".*") ∈ Gen.pythonVersionList →
+        c'.allowsPlain (pyV X Y Z) = c.allowsPlain (pyV X Y Z)
+
 end Poetry.C02
